@@ -62,3 +62,57 @@ Theorem C09_site_inventory :
   map fst accounted = reader_sites /\ forallb justified accounted = true.
 Proof. exact (conj sites_accounted sites_justified). Qed.
 Print Assumptions C09_site_inventory.
+
+(* memory in proportion to the input, as ONE statement about whole runs of the interpreter: Thrift/Alloc.v threads
+   a ghost allocation counter through the value interpreter (charged where the readers allocate from a
+   wire-supplied number: read_bytes_vec / read_string of the in-memory readers after the length test; rw_ext
+   read_exact_to_vec of the asynchronous readers -- min(len, PREALLOC_LIMIT) up front, then growth with the bytes
+   received --; one unit per element / field / map entry the interpreter pushes; the compact id stack).
+   Erasing the counter gives back read_val / aread_val (same value, state, error class) ... *)
+From PV Require Import Thrift.Async Thrift.Alloc Proofs.AllocP.
+Theorem C09_alloc_erase_sync : forall pre p f ty s a,
+  fst (read_val_alloc pre p f ty s a) = read_val p f ty s.
+Proof. exact alloc_erase_sync. Qed.
+Print Assumptions C09_alloc_erase_sync.
+
+Theorem C09_alloc_erase_async : forall pre p f ty s a,
+  fst (aread_val_alloc pre p f ty s a) = aread_val p f ty s.
+Proof. exact alloc_erase_async. Qed.
+Print Assumptions C09_alloc_erase_async.
+
+(* ... and for EVERY byte string, every requested type, protocol, initial reader context and fuel, whatever the
+   outcome (value or error: what a failing read had requested counts), the counter of the in-memory readers is at
+   most 2 * (length + 1) and that of the asynchronous readers at most 3 * (length + 1) + PREALLOC_LIMIT (the
+   regenerated constant of rw_ext.rs: a short byte string is allocated before it is received) *)
+Theorem C09_alloc : forall p f ty (l : list byte) rcx,
+  alloc_of (read_val_alloc false p f ty (mkS l rcx) 0) <= 2 * (Z.of_nat (length l) + 1).
+Proof. exact alloc_sync. Qed.
+Print Assumptions C09_alloc.
+
+Theorem C09_alloc_async : forall p f ty (l : list byte) rcx,
+  alloc_of (aread_val_alloc false p f ty (mkS l rcx) 0) <= 3 * (Z.of_nat (length l) + 1) + prealloc_limit.
+Proof. exact alloc_async. Qed.
+Print Assumptions C09_alloc_async.
+
+(* alloc <= c * (length + 1) with the single explicit constant c = 3 + PREALLOC_LIMIT, sync and async *)
+Theorem C09_alloc_linear : forall p f ty (l : list byte) rcx,
+  alloc_of (read_val_alloc false p f ty (mkS l rcx) 0) <= (3 + prealloc_limit) * (Z.of_nat (length l) + 1) /\
+  alloc_of (aread_val_alloc false p f ty (mkS l rcx) 0) <= (3 + prealloc_limit) * (Z.of_nat (length l) + 1).
+Proof. exact alloc_linear. Qed.
+Print Assumptions C09_alloc_linear.
+
+(* a client that preallocates from the container headers of the in-memory readers (Vec::with_capacity(size), what
+   the emitted sync decoders do): a successful read requested at most 2 * (length + 1); a FAILING read may have
+   requested one announced size per open nesting level -- depth budget times length, and Proofs/AllocP.v
+   [alloc_sync_prealloc_superlinear] shows this is what happens (5 * k * (k - 1) / 2 slots for 5 * k bytes):
+   checked_container_size bounds each announced size, not their sum over the nesting levels *)
+Theorem C09_alloc_prealloc_ok : forall p f ty (l : list byte) rcx v s',
+  fst (read_val_alloc true p f ty (mkS l rcx) 0) = Ok (v, s') ->
+  alloc_of (read_val_alloc true p f ty (mkS l rcx) 0) <= 2 * (Z.of_nat (length l) + 1).
+Proof. exact alloc_sync_prealloc_ok. Qed.
+Print Assumptions C09_alloc_prealloc_ok.
+
+Theorem C09_alloc_prealloc_depth : forall p f ty (l : list byte) rcx,
+  alloc_of (read_val_alloc true p f ty (mkS l rcx) 0) <= (1 + Z.of_nat f) * (2 * Z.of_nat (length l) + 1) + 1.
+Proof. exact alloc_sync_prealloc. Qed.
+Print Assumptions C09_alloc_prealloc_depth.
